@@ -197,10 +197,42 @@ type svcImpl struct{}
 
 func (e *Env) serviceDesc() *grpc.ServiceDesc {
 	d := &grpc.ServiceDesc{ServiceName: "t.S", HandlerType: (*interface{})(nil), Metadata: "e1"}
+	same := strings.Contains(e.sc.Opts, "samemethod")
+	// which call a request belongs to, when every call of the scenario goes to the same method (option
+	// "samemethod": whatever the library keeps per method is shared by the calls): the caller says so in
+	// its metadata
+	which := func(ctx context.Context, def int) int {
+		if md, ok := metadata.FromIncomingContext(ctx); ok && same {
+			if v := md.Get("x-rpc"); len(v) > 0 {
+				if n, err := strconv.Atoi(v[0]); err == nil && n < len(e.sc.RPCs) {
+					return n
+				}
+			}
+		}
+		return def
+	}
 	for i := range e.sc.RPCs {
 		i := i
 		rpc := &e.sc.RPCs[i]
 		name := "M" + strconv.Itoa(i)
+		if same && i > 0 {
+			break // all calls go to M0 (they are of one kind)
+		}
+		if same {
+			if rpc.Kind == "unary" {
+				d.Methods = append(d.Methods, grpc.MethodDesc{MethodName: name,
+					Handler: func(srv interface{}, ctx context.Context, dec func(interface{}) error, ic grpc.UnaryServerInterceptor) (interface{}, error) {
+						return e.unaryHandler(which(ctx, 0), ctx, dec)
+					}})
+			} else {
+				d.Streams = append(d.Streams, grpc.StreamDesc{StreamName: name,
+					ClientStreams: rpc.Kind == "cs" || rpc.Kind == "bd", ServerStreams: rpc.Kind == "ss" || rpc.Kind == "bd",
+					Handler: func(srv interface{}, stream grpc.ServerStream) error {
+						return e.streamHandler(which(stream.Context(), 0), stream)
+					}})
+			}
+			continue
+		}
 		if rpc.Kind == "unary" {
 			d.Methods = append(d.Methods, grpc.MethodDesc{MethodName: name,
 				Handler: func(srv interface{}, ctx context.Context, dec func(interface{}) error, ic grpc.UnaryServerInterceptor) (interface{}, error) {
@@ -583,10 +615,23 @@ type cli struct {
 	trl    metadata.MD
 }
 
-func (e *Env) method(i int) string { return "/t.S/M" + strconv.Itoa(i) }
+func (e *Env) method(i int) string {
+	if strings.Contains(e.sc.Opts, "samemethod") {
+		return "/t.S/M0"
+	}
+	return "/t.S/M" + strconv.Itoa(i)
+}
 
 // rpcCtx is the context of call i: the scenario's context, bounded by the call's own deadline if it has one.
 func (e *Env) rpcCtx(i int) context.Context {
+	ctx := e.rpcCtx0(i)
+	if strings.Contains(e.sc.Opts, "samemethod") {
+		ctx = metadata.AppendToOutgoingContext(ctx, "x-rpc", strconv.Itoa(i))
+	}
+	return ctx
+}
+
+func (e *Env) rpcCtx0(i int) context.Context {
 	e.nlock()
 	octx := e.ctxFor[i]
 	e.nunlock()
@@ -918,7 +963,19 @@ func (e *Env) setup() {
 		ch.RegisterService(desc, &svcImpl{})
 		e.ch = ch
 	case "http":
-		srv := httpgrpc.NewServer()
+		var sopts []httpgrpc.ServerOption
+		switch {
+		case strings.Contains(sc.Opts, "renderer:noop"):
+			// an application-supplied error renderer that writes nothing (the reply stays 200 with whatever
+			// headers the server set), and one that only adds a header of its own
+			sopts = append(sopts, httpgrpc.ErrorRenderer(func(context.Context, *status.Status, http.ResponseWriter) {}))
+		case strings.Contains(sc.Opts, "renderer:hdr"):
+			sopts = append(sopts, httpgrpc.ErrorRenderer(func(_ context.Context, _ *status.Status, w http.ResponseWriter) {
+				w.Header().Set("X-Failure", "yes")
+				w.WriteHeader(http.StatusOK)
+			}))
+		}
+		srv := httpgrpc.NewServer(sopts...)
 		srv.RegisterService(desc, &svcImpl{})
 		if e.native {
 			var h http.Handler = srv
